@@ -285,7 +285,11 @@ def finish(mod, prop_id, tier, seed, results, wall, specs):
         nontrivial.update(r["nontrivial"])
         labels.update(r["labels"])
         known_hits.update(r["known_hits"])
-        extra.update(r["extra"])
+        for ek, ev_ in r["extra"].items():
+            if ek.endswith("_max"):
+                extra[ek] = max(extra.get(ek, 0), ev_)
+            else:
+                extra[ek] += ev_
         for k, v in r["known_examples"].items():
             known_examples.setdefault(k, v)
         discarded += r["discarded"]
